@@ -87,6 +87,9 @@ def callsOf (k : Nat) (l : List Call) : List (Id × Id) :=
 def UniqueIn (k : Nat) (kind : NKind) (ns : List (Notifier × Loc)) : Prop :=
   (ns.filter (fun p => p.1.h == k)).map (fun p => p.1.kind) = [kind]
 
+instance (k : Nat) (kind : NKind) (ns : List (Notifier × Loc)) : Decidable (UniqueIn k kind ns) := by
+  unfold UniqueIn; infer_instance
+
 /-- What can be read from the attribute (without reading it). -/
 def readable (d : Id) (slot : Option Id) : Id := slot.getD d
 
